@@ -327,6 +327,28 @@ class SymB:
         tab[key] = (args, SR(v))
         return tab[key][1]
 
+    def pick(self, name, lo, hi):
+        """a symbolic integer in [lo, hi] concretised by solver-decided forking -> Python int (one path per feasible value)"""
+        c = sc.cur()
+        v = z3.Int(name)
+        c.assume(z3.And(v >= lo, v <= hi))
+        for i in range(lo, hi):
+            if c.branch(v == i):
+                return i
+        c.assume(v == hi)
+        return hi
+
+    def concretize(self, si, lo, hi):
+        """value of the symbolic integer expression ``si`` on this path (forks over [lo, hi])"""
+        if not isinstance(si, sc.SI):
+            return int(si)
+        c = sc.cur()
+        for i in range(lo, hi):
+            if c.branch(si.e == i):
+                return i
+        c.assume(si.e == hi)
+        return hi
+
     def fork(self, n, tag="choice"):
         """nondeterministic choice among range(n) (explored exhaustively)"""
         c = sc.cur()
@@ -472,6 +494,13 @@ class ConcB:
         v = np.float64(self._get(f"{fname}#{k}"))
         lst.append((xs, v))
         return v
+
+    def pick(self, name, lo, hi):
+        v = int(round(self._get(name))) if name in self.model else lo
+        return min(max(v, lo), hi)
+
+    def concretize(self, si, lo, hi):
+        return int(si)
 
     def fork(self, n, tag="choice"):
         k = self.model.get("__choices__", [])
